@@ -3,6 +3,7 @@ import Driver.MgrDrv
 import Driver.LeakDrv
 import Driver.AtrestDrv
 import Driver.CodecDrv
+import Driver.InviteDrv
 
 def main (args : List String) : IO UInt32 := do
   match args with
@@ -11,4 +12,5 @@ def main (args : List String) : IO UInt32 := do
   | ["leak"] => Driver.LeakDrv.main; return 0
   | ["atrest"] => Driver.AtrestDrv.main; return 0
   | ["codec"] => Driver.CodecDrv.main; return 0
+  | ["invite"] => Driver.InviteDrv.main; return 0
   | _ => IO.eprintln "usage: mdkdrv store < ops"; return 2
